@@ -877,7 +877,8 @@ namespace
                 else if (k < 83) p.ops.push_back({4, (int64_t)r.below(3 * size + 1)});
                 else if (k < 91) p.ops.push_back({5, r.range(-2 * size, 3 * size)});
                 else if (k < 98) p.ops.push_back({6, r.range(-3 * size, 3 * size)});
-                else p.ops.push_back({7, r.range(1, 13)});
+                else if (r.chance(1, 2)) p.ops.push_back({7, r.range(1, 13)});
+                else p.ops.push_back({8, (int64_t)r.below(100000)});
             }
             return p;
         }
@@ -896,9 +897,26 @@ namespace
                 int64_t mc = 0;
                 for (auto &o : p.ops)
                 {
-                    int kind = (int)mod(arg(o, 0), 8);
+                    int kind = (int)mod(arg(o, 0), 9);
                     switch (kind)
                     {
+                    case 8:
+                    {
+                        // a snapshot (copy) of the window: it looks back at the same samples, evicts the same one on its next push,
+                        // and the original goes on unaffected
+                        igris::cyclic_buffer<int, simalloc::Alloc<int>> snap(cb);
+                        size_t have = std::min<size_t>(hist.size(), (size_t)size);
+                        if (fresh && snap.size() != have) violate("C03/cyclic-copy", "a copy taken after %zu pushes into %d slots reports size %zu", hist.size(), size, snap.size());
+                        for (size_t i = 0; i < have; i++)
+                            if (snap[(int)i] != hist[hist.size() - 1 - i]) violate("C03/cyclic-copy", "copy[%zu] = %d, the %zu-th previous sample is %d (%zu pushes into %d slots)", i, snap[(int)i], i, hist[hist.size() - 1 - i], hist.size(), size);
+                        int ev = snap.push((int)arg(o, 1));
+                        if (hist.size() >= (size_t)size && ev != hist[hist.size() - size]) violate("C03/cyclic-copy", "a push into the copy evicted %d, the oldest sample was %d", ev, hist[hist.size() - size]);
+                        if (snap[0] != (int)arg(o, 1)) violate("C03/cyclic-copy", "the copy's newest sample is %d after push(%d)", snap[0], (int)arg(o, 1));
+                        for (size_t i = 0; i < have; i++)
+                            if (cb[(int)i] != hist[hist.size() - 1 - i]) violate("C03/cyclic-copy", "the original's [%zu] changed when its copy was pushed to", i);
+                        probe("window_snapshot");
+                        break;
+                    }
                     case 0:
                     {
                         int v = (int)arg(o, 1);
